@@ -6,6 +6,7 @@ CONSTANTS
   IncFees = {FALSE, TRUE}
   NChanges = {1, 2}
   QuietW2 = FALSE
+  UseFarTtl = FALSE
   Srcs = {"", "a1"}
   ActIs = {"a0", "a1"}
   ActFs = {"a0", "a1"}
